@@ -65,7 +65,7 @@ var specs = map[string]spec{
 // length of both layers is 144*bitrate/samplerate (+1 with padding).
 var m1aBitrates = [2][14]int{
 	{32, 48, 56, 64, 80, 96, 112, 128, 160, 192, 224, 256, 320, 384}, // layer II
-	{32, 40, 48, 56, 64, 80, 96, 112, 128, 160, 192, 224, 256, 320}, // layer III
+	{32, 40, 48, 56, 64, 80, 96, 112, 128, 160, 192, 224, 256, 320},  // layer III
 }
 var m1aRates = [3]int{44100, 48000, 32000}
 
